@@ -231,6 +231,13 @@ class Equality(Harness):
             both = SB(z3.And(e1, e2))
         out.append(Check("normalised_eq_iff_both", cond=same(a == b, both)))
         out.append(Check("corrfunc_member_sets_differ", cond=not (CorrFunc(a, a) == CorrFunc(a, None, a))))
+        # structural: every combination of optional members, in both operand orders
+        combos = [(a, None, None), (None, a, None), (None, None, a), (a, a, None), (a, None, a), (None, a, a), (a, a, a)]
+        for k1, c1 in enumerate(combos):
+            for k2, c2 in enumerate(combos):
+                r = CorrFunc(a, *c1) == CorrFunc(a2, *c2)
+                out.append(Check("corrfunc_members_%d_%d" % (k1, k2), cond=(bool(r) == (k1 == k2))))
+        out.append(Check("eq_symmetric", cond=((a == b) == (b == a) and (a.counts == b.counts) == (b.counts == a.counts))))
         out.append(Check("auto_flag_matters", cond=not (
             PatchedCounts(binning, inp["a_c"].copy(), auto=True) == PatchedCounts(binning, inp["a_c"].copy(), auto=False))))
         out.append(Check("binning_matters", cond=not (
